@@ -854,6 +854,41 @@ def run(ctx):
         ctx.extra["r08_3_fallible_functions"] = sorted(p for p, s in disc.summary.items() if s["fallible"])
     ctx.guard("R08.3", r3)
 
+    def r3_abort():
+        # "aborts the remainder of the enclosing block": where an executable-content element reads a location of a namelist
+        # (Datamodel::get_by_location raises error.execution itself), the Err outcome must end the element with `false` - a
+        # `match` whose Err arm returns false, `let Ok(v) = .. else { return false }` - and not merely skip the entry
+        n = 0
+        for path in sorted(F.impls.get(EC_EXECUTE, ())):
+            g = F.fns[path]
+            if g.hir is None:
+                continue
+            for c in g.calls(DM + "get_by_location"):
+                n += 1
+                ok, how = False, "the Err outcome is not turned into `return false`"
+                par = g.parent(c)
+                while par is not None and par.get("k") in ("ref", "cast", "block") and par.get("k") != "match":
+                    if par.get("k") == "block" and par.get("tail") is not c and par.get("st"):
+                        break
+                    c2, par = par, g.parent(par)
+                m = par if par is not None and par.get("k") == "match" else None
+                if m is not None:
+                    for a in m["arms"]:
+                        head = (a["pat"].get("r") or {}).get("p", "")
+                        if head.endswith("::Err"):
+                            rets = [r for r in hirq.walk(a["body"]) if r.get("k") == "ret" and "e" in r and const_eval(r["e"]) is False]
+                            ok = bool(rets) and hirq.diverges(a["body"])
+                            how = "match: the Err arm %s" % ("returns false" if ok else "does not return false")
+                elif par is not None and par.get("k") == "let" and par.get("els") is not None:
+                    rets = [r for r in hirq.walk(par["els"]) if r.get("k") == "ret" and "e" in r and const_eval(r["e"]) is False]
+                    ok = bool(rets) and (par["pat"].get("r") or {}).get("p", "").endswith("::Ok")
+                    how = "let-else: %s" % ("returns false" if ok else "does not return false")
+                elif par is not None and par.get("k") == "try":
+                    ok, how = False, "`?` in a function returning bool"
+                ctx.ob("R08.3", site_key(g, "a failing namelist entry aborts the element", n - 1), ok, line_of(c), how)
+        ctx.floor("R08.3", "namelist reads in executable content", n, 1)
+    ctx.guard("R08.3", r3_abort)
+
     # ------------------------------------------------------------------------------ R08.4
     ctx.rule("R08.4", "DataStore::set_arc replaces a value only through the occupied entry and only when it is not read-only (no other insert); "
                       "ExpressionAssign writes through the target arc only under !is_readonly() of that arc; Datamodel::assign implementations "
